@@ -13,6 +13,7 @@ from vf.explore import explore
 from vf.rig import Rig
 from vf.simloop import Chooser, ReplayDivergence
 from vf.world import Session
+from vf.usermgr import make_slow_manager
 
 PID = "C10"
 IDLE = 30
@@ -23,6 +24,11 @@ def users_factory(a, base):
     return [a.User("alice", None, base_path=base, maximum_connections=1),
             a.User("bob", "pw", base_path=base, maximum_connections=2),
             a.User(base_path=base)]
+
+
+def slow_users_factory(a, base):
+    # the same table behind a user manager that suspends in every operation (see vf/usermgr.py)
+    return make_slow_manager(a, users_factory(a, base))
 
 
 class Model:
@@ -104,9 +110,9 @@ class Model:
                 self._end(i)
 
 
-def build(hist, n, limit, chooser=None, explore_from=None):
+def build(hist, n, limit, chooser=None, explore_from=None, slow=False):
     """replay a history on a fresh server; returns (rig, model, problems, last replies)"""
-    rig = Rig(chooser=chooser, n_sessions=n, users=users_factory, tree={}, advance=0,
+    rig = Rig(chooser=chooser, n_sessions=n, users=slow_users_factory if slow else users_factory, tree={}, advance=0,
               server_kwargs={"maximum_connections": limit, "idle_timeout": IDLE, "wait_future_timeout": 1})
 
     async def boom(connection, rest):
@@ -228,10 +234,11 @@ ALPHABET = ["@connect", "USER alice", "USER bob", "USER nobody", "PASS pw", "PAS
 
 def expand(item):
     """BFS worker: execute one (history, n, limit) and all its one-step extensions' parent check"""
-    hist, n, limit = item
+    hist, n, limit, *rest = item
+    slow = bool(rest and rest[0])
     part = report.Partial()
     with logcap.capture() as cap:
-        rig, model, problems = build(hist, n, limit)
+        rig, model, problems = build(hist, n, limit, slow=slow)
         try:
             key = (model.key(), digest(rig))
             problems += final_probe(rig, model, hist)
@@ -244,15 +251,15 @@ def expand(item):
             part.evaluations += 1
             part.traces += 1
             part.transitions += len(hist)
-            part.states.add(report.fp(key))
+            part.states.add(report.fp([key, slow]))
             if any(e in ("@drop", "@rst", "BOOM", "@idle") or e.startswith("PASS bad") for _, e in hist):
                 part.nontrivial.add(report.fp(key))
             part.outcomes[report.fp(key[0])] += 1
             part.sample({"n": n, "limit": limit, "history": hist}, limit=1)
             for p in problems:
                 part.violation({"kind": p["kind"], "last": (hist[-1][1] if hist else None)},
-                               {"problem": p, "n": n, "limit": limit},
-                               replay={"mode": "hist", "hist": hist, "n": n, "limit": limit})
+                               {"problem": p, "n": n, "limit": limit, "slow_user_manager": slow},
+                               replay={"mode": "hist", "hist": hist, "n": n, "limit": limit, "slow": slow})
             enabled = [(i, e) for i in range(n) for e in ALPHABET if model.enabled(i, e)]
             if any(st[0] == "open" for st in model.sess):
                 enabled.append((-1, "@idle"))
@@ -273,13 +280,27 @@ RACES = [
     ("two-connect-one-slot", 2, 1, [(0, "@connect!"), (1, "@connect!"), (0, "@drop")], 0),
     ("relogin-race", 2, 2, [(0, "@connect"), (1, "@connect"), (0, "USER alice"), (0, "USER bob!"), (1, "USER alice")], 3),
     ("boom-while-user", 1, 1, [(0, "@connect"), (0, "USER bob!"), (0, "BOOM")], 1),
+    # the same races with a user manager that suspends inside get_user / authenticate / notify_logout: the
+    # disconnect (or the next pipelined command) now also lands while a login handler is parked in the manager
+    ("slow-user-drop", 1, 1, [(0, "@connect"), (0, "USER bob!"), (0, "@drop")], 1, True),
+    ("slow-relogin-drop", 1, 1, [(0, "@connect"), (0, "USER alice"), (0, "USER bob!"), (0, "@drop")], 2, True),
+    ("slow-relogin-rst", 2, 1, [(0, "@connect"), (0, "USER bob"), (0, "PASS pw"), (0, "USER alice!"), (0, "@rst")], 3, True),
+    ("slow-pass-drop", 1, 1, [(0, "@connect"), (0, "USER bob"), (0, "PASS pw!"), (0, "@drop")], 2, True),
+    ("slow-user-user", 1, 1, [(0, "@connect"), (0, "USER alice"), (0, "USER bob!"), (0, "USER bob")], 2, True),
+    ("slow-user-user-drop", 1, 1, [(0, "@connect"), (0, "USER alice"), (0, "USER bob!"), (0, "USER alice!"), (0, "@drop")],
+     2, True),
+    ("slow-user-quit", 1, 1, [(0, "@connect"), (0, "USER alice"), (0, "USER bob!"), (0, "QUIT")], 2, True),
+    ("slow-two-sessions-one-user-slot", 2, 2, [(0, "@connect"), (1, "@connect"), (0, "USER alice!"), (1, "USER alice")],
+     2, True),
+    ("slow-boom-while-user", 1, 1, [(0, "@connect"), (0, "USER alice"), (0, "USER bob!"), (0, "BOOM")], 2, True),
 ]
 
 
 def run_race(case, chooser):
-    name, n, limit, hist, ef = case
+    name, n, limit, hist, ef, *rest = case
+    slow = bool(rest and rest[0])
     with logcap.capture() as cap:
-        rig, model, problems = build(hist, n, limit, chooser=chooser, explore_from=ef)
+        rig, model, problems = build(hist, n, limit, chooser=chooser, explore_from=ef, slow=slow)
         try:
             chooser.active = False
             rig.world.settle(0)
@@ -290,6 +311,9 @@ def run_race(case, chooser):
             bad = [t for r, t in cap.records if "Too many acquires" in t or "Too many releases" in t]
             if bad:
                 problems.append({"kind": "accounting-failed", "log": bad[0][-300:], "history": hist})
+            for ctx in rig.world.loop_errors():
+                if isinstance(ctx.get("exception"), ValueError):
+                    problems.append({"kind": "accounting-failed", "log": repr(ctx.get("exception")), "history": hist})
             return {"problems": problems, "trace": report.fp(rig.world.net.trace), "events": rig.world.net.n_events}
         finally:
             rig.close()
@@ -319,13 +343,13 @@ def _race_work(item):
     return part
 
 
-def bfs(n, limit, depth, cap_states):
+def bfs(n, limit, depth, cap_states, slow=False):
     total = report.Partial()
     seen = set()
     frontier = [[]]
     level = 0
     while frontier and level <= depth:
-        results = report.pmap(expand, [(h, n, limit) for h in frontier])
+        results = report.pmap(expand, [(h, n, limit, slow) for h in frontier])
         nxt = []
         for h, (part, key, enabled) in zip(frontier, results):
             total.merge(part)
@@ -335,13 +359,13 @@ def bfs(n, limit, depth, cap_states):
             if level < depth:
                 for ev in enabled:
                     nxt.append(h + [ev])
-        total.counters[f"bfs_n{n}_limit{limit}_level{level}"] = len(frontier)
+        total.counters[f"bfs_n{n}_limit{limit}{'_slow' if slow else ''}_level{level}"] = len(frontier)
         if len(nxt) > cap_states:
             total.caps.append({"bfs": [n, limit], "level": level + 1, "frontier": len(nxt), "cap": cap_states})
             nxt = nxt[:cap_states]
         frontier = nxt
         level += 1
-    total.counters[f"bfs_n{n}_limit{limit}_distinct_states"] = len(seen)
+    total.counters[f"bfs_n{n}_limit{limit}{'_slow' if slow else ''}_distinct_states"] = len(seen)
     return total
 
 
@@ -352,13 +376,15 @@ def run(tier, seed, t0):
     configs = [(2, 1), (2, 2), (2, None), (3, 2)] if tier == "quick" else [(2, 1), (2, 2), (2, None), (3, 1), (3, 2), (3, None)]
     for n, limit in configs:
         parts.append(bfs(n, limit, depth if n == 2 else depth - 1, cap))
+    # the same automaton behind a suspending user manager (canonical schedule; the races below vary the schedule)
+    parts.append(bfs(2, 1, depth - 1, cap, slow=True))
     bound = 1 if tier == "quick" else 2
     kinds = ["early", "order", "batch"]
     parts += report.pmap(_race_work, [(c, bound, kinds) for c in RACES])
     part = report.merge_all(parts)
     bounds = {"sessions": "2..3", "server_limits": [1, 2, None], "users": {k: v[1] for k, v in USERS.items()},
               "alphabet": ALPHABET + ["@idle (global)"], "bfs_depth": depth, "race_deviation_bound": bound,
-              "races": [c[0] for c in RACES]}
+              "races": [c[0] for c in RACES], "user_managers": ["MemoryUserManager", "suspending subclass (vf/usermgr.py)"]}
     return report.finish(
         PID, tier, seed, "model_checking", part, t0,
         rule="BFS over interleaved event histories with the real server as transition function; a state is the history "
@@ -376,7 +402,7 @@ def replay(path):
     rp = data["replay"]
     if rp["mode"] == "hist":
         hist = [tuple(x) for x in rp["hist"]]
-        part, key, en = expand((hist, rp["n"], rp["limit"]))
+        part, key, en = expand((hist, rp["n"], rp["limit"], rp.get("slow", False)))
         print(json.dumps([v["detail"] for v in part.violations], indent=1, default=repr))
         return 1 if part.violations else 0
     case = rp["case"]
